@@ -106,15 +106,53 @@ func enumI64(yield func(core.Case) bool) {
 						r.Add("I64toa|"+i64Class(x)+"|writes-before-output", "%s", f)
 					}
 				}
-				// the internal/json wrapper (GuardSlice + native call), on a buffer with no spare capacity
-				pre := []byte("pre")
-				got := verifhook.C18EncodeInt64(pre[:3:3], x)
-				if string(got) != "pre"+want {
-					r.Add("json.EncodeInt64|"+i64Class(x)+"|differs-from-strconv", "%s: got %q want %q", f, got, "pre"+want)
-				}
+				// the internal/json wrapper (GuardSlice + native call): every spare output capacity 0..40
+				// (below, at and above the text length and the wrapper's reservation)
+				capSweep(r, "json.EncodeInt64", i64Class(x), f, 40, func(b []byte) []byte { return verifhook.C18EncodeInt64(b, x) }, func(out []byte) string {
+					if string(out) != want {
+						return fmt.Sprintf("differs-from-strconv: got %q want %q", out, want)
+					}
+					return ""
+				})
 			}
 		})) {
 			return
+		}
+	}
+}
+
+// capSweep calls one internal/json Encode* wrapper on a buffer "pre" with every spare capacity 0..maxSpare,
+// carved out of a 0xAA-filled arena: the result must keep the prefix, verify() must accept the appended
+// text, and - when the wrapper did not reallocate - no arena byte past the slice's capacity may change.
+func capSweep(r *core.Result, site, cls, f string, maxSpare int, call func([]byte) []byte, verify func([]byte) string) {
+	for k := 0; k <= maxSpare; k++ {
+		arena := make([]byte, 3+k+72)
+		for i := range arena {
+			arena[i] = 0xAA
+		}
+		copy(arena, "pre")
+		var got []byte
+		if pi := core.Catch(func() { got = call(arena[:3 : 3+k]) }); pi != nil {
+			r.Add(site+"|"+cls+"|panic:"+core.PanicClass(pi.Val), "%s: spare capacity %d: panic %v\n%s", f, k, pi.Val, pi.Stack)
+			continue
+		}
+		r.Count("capacity_points", 1)
+		if len(got) < 3 || string(got[:3]) != "pre" {
+			r.Add(site+"|"+cls+"|clobbers-buffer-prefix", "%s: spare capacity %d: got %q", f, k, clip(string(got), 80))
+			continue
+		}
+		if msg := verify(got[3:]); msg != "" {
+			w := msg
+			if i := strings.IndexByte(w, ':'); i > 0 {
+				w = w[:i]
+			}
+			r.Add(site+"|"+cls+"|"+w, "%s: spare capacity %d: %s", f, k, msg)
+		}
+		for i := 3 + k; i < len(arena); i++ {
+			if arena[i] != 0xAA {
+				r.Add(site+"|"+cls+"|writes-beyond-capacity", "%s: spare capacity %d: arena byte %d (capacity ends at %d) was overwritten", f, k, i, 3+k)
+				break
+			}
 		}
 	}
 }
@@ -243,13 +281,12 @@ func enumF64(chunk, nchunks int, yield func(core.Case) bool) {
 				}
 				// the internal/json wrapper (GuardSlice + native call, plus whatever spelling policy it adds,
 				// e.g. "-0.0" for negative zero): same demand as for the native encoder, not byte equality
-				pre := []byte("pre")
-				got := verifhook.C18EncodeFloat64(pre[:3:3], x)
-				if len(got) < 3 || string(got[:3]) != "pre" {
-					r.Add("json.EncodeFloat64|"+cls+"|clobbers-buffer-prefix", "%s: got %q", f, got)
-				} else if b2, err := strconv.ParseFloat(string(got[3:]), 64); err != nil || math.Float64bits(b2) != bits || !json.Valid(got[3:]) {
-					r.Add("json.EncodeFloat64|"+cls+"|does-not-parse-back-bit-exactly", "%s: EncodeFloat64(%s) = %q (native f64toa %q) parses back to %016x (err %v)", f, key, got[3:], out, math.Float64bits(b2), err)
-				}
+				capSweep(r, "json.EncodeFloat64", cls, f, 40, func(b []byte) []byte { return verifhook.C18EncodeFloat64(b, x) }, func(o []byte) string {
+					if b2, err := strconv.ParseFloat(string(o), 64); err != nil || math.Float64bits(b2) != bits || !json.Valid(o) {
+						return fmt.Sprintf("does-not-parse-back-bit-exactly: EncodeFloat64(%s) = %q (native f64toa %q) parses back to %016x (err %v)", key, o, out, math.Float64bits(b2), err)
+					}
+					return ""
+				})
 			}
 		})) {
 			return
@@ -297,7 +334,7 @@ func lenClass(n int) string {
 }
 
 // quoteCheck runs one string through native Quote in every flavour (input flush against a guard page)
-// and through json.EncodeString with three output capacities; each output, wrapped in quotes, must
+// and through json.EncodeString with every output capacity 0..6*len+12 (len <= 24; three capacities beyond); each output, wrapped in quotes, must
 // unquote with encoding/json to the identical string.
 func quoteCheck(r *core.Result, s string) {
 	if !utf8.ValidString(s) {
@@ -327,12 +364,26 @@ func quoteCheck(r *core.Result, s string) {
 				}
 			}
 		}
-		for _, c := range []int{0, len(s) + 2, 2*len(s) + 8} {
-			var buf []byte
-			if c > 0 {
-				buf = make([]byte, 0, c)
+		caps := []int{0, len(s) + 2, 2*len(s) + 8}
+		if len(s) <= 24 {
+			// short strings: every output capacity from 0 to past the longest possible escaping
+			caps = caps[:0]
+			for c := 0; c <= 6*len(s)+12; c++ {
+				caps = append(caps, c)
 			}
-			got := verifhook.C18EncodeString(buf, string(in))
+		}
+		for _, c := range caps {
+			arena := make([]byte, c+72)
+			for i := range arena {
+				arena[i] = 0xAA
+			}
+			got := verifhook.C18EncodeString(arena[:0:c], string(in))
+			for i := c; i < len(arena); i++ {
+				if arena[i] != 0xAA {
+					r.Add("json.EncodeString|"+cls+"|writes-beyond-capacity", "%s: cap %d: arena byte %d was overwritten (%q)", f, c, i, clip(s, 80))
+					break
+				}
+			}
 			if len(got) < 2 || got[0] != '"' || got[len(got)-1] != '"' {
 				r.Add("json.EncodeString|"+cls+"|not-quoted", "%s: cap %d: %q", f, c, clip(string(got), 120))
 				continue
